@@ -54,9 +54,11 @@ type View struct {
 
 // Gen generates transactions against a node's current state.
 type Gen struct {
-	N        *Node
-	W        *World
-	V        *View
+	N *Node
+	W *World
+	V *View
+	// Detached: Refresh reads the committed height through a separate state object
+	Detached bool
 	Accepted [][]byte // raw bytes of accepted transactions (for replays)
 	Rejected [][]byte
 	Checks   []*IssuedCheck
@@ -66,11 +68,11 @@ type Gen struct {
 	// ForceSymbol, when set, is the ticker every ticker-addressed transaction (recreate, owner
 	// change) is generated for
 	ForceSymbol *types.CoinSymbol
-	newCoin  int
-	newCand  int
-	MsigCnt  int
-	Horizon  uint64 // heights at or below this are "inside the history"
-	Weights  Profile
+	newCoin     int
+	newCand     int
+	MsigCnt     int
+	Horizon     uint64 // heights at or below this are "inside the history"
+	Weights     Profile
 	// NoAvoid disables the by-construction exclusion of a known finding (by id);
 	// Avoided counts how often each exclusion changed a generated transaction.
 	NoAvoid map[string]bool
@@ -107,6 +109,9 @@ type IssuedCheck struct {
 	OddLock bool
 }
 
+// (Gen.Detached: the view is built from a separate state object opened at the last committed
+// height, so that refreshing it neither fills nor reloads the caches of the node's live state.)
+
 // NewGen creates a generator bound to a node.
 func NewGen(n *Node, weights Profile) *Gen {
 	g := &Gen{N: n, W: n.W, Weights: weights, Horizon: uint64(n.W.InitialHeight) + 5000}
@@ -116,6 +121,10 @@ func NewGen(n *Node, weights Profile) *Gen {
 
 // Refresh re-reads the committed state.
 func (g *Gen) Refresh() {
+	if g.Detached {
+		g.V = BuildView(g.N.ExportCommitted())
+		return
+	}
 	g.V = BuildView(g.N.Export())
 }
 
@@ -1117,6 +1126,20 @@ func (g *Gen) newSymbol(t *rapid.T, existing bool) types.CoinSymbol {
 	}
 	if U(t, "symBad", 10) == 0 {
 		return types.StrToCoinSymbol(pick(t, "symBadStr", []string{"AB", "abc", "A-B", "TOOLONGSYMB1", "", "LP-5"}))
+	}
+	if !existing && U(t, "symShifted", 8) == 0 {
+		// a ticker that reads like another one but is padded with NUL bytes on the left: the symbol
+		// type is a 10-byte array and prints trimmed on both sides
+		src := types.GetBaseCoin()
+		if len(g.V.CoinIDs) > 0 && U(t, "symShiftBase", 4) != 0 {
+			src = g.V.Coins[pick(t, "symShiftCoin", g.V.CoinIDs)].Symbol
+		}
+		str := src.String()
+		if room := len(src) - len(str); room > 0 {
+			var out types.CoinSymbol
+			copy(out[1+U(t, "symShiftBy", room):], str)
+			return out
+		}
 	}
 	g.newCoin++
 	ln := rapid.IntRange(3, 10).Draw(t, "symLen")
